@@ -746,13 +746,18 @@ func TestC20(t *testing.T) {
 		"os.Setenv after os.Clearenv and repeated (map iteration inside the loader); the canonical form of every resulting Configuration must equal (a), " +
 		"leaves addressed by neither source must keep their defaults. Usability = mechanisms.NewMechanismFactory and rules.NewRuleFactory (default rule) " +
 		"succeed. A schema equivalence table gives every mechanism type, endpoint auth type and option (plus spellings only one side knows) once by file and " +
-		"once by environment and compares schema verdict, usability and effect. Loads whose inputs contain a trigger of one of the two list defects are " +
+		"once by environment and compares schema verdict, usability and effect; the same is done for every value of the enumerated options (cipher suites by all " +
+		"names crypto/tls has for them, TLS versions, log levels and formats, span processors, CORS methods, cache types, OAuth2 client authentication methods, api key " +
+		"locations, scope matching strategies, redirect codes) incl. other spellings and unknown values where the loader checks the value itself. Lists with more than " +
+		"ten elements are given by the environment (completely, as override of one element of the file, as continuation of the file) with the indices in the " +
+		"variable names written plainly, zero-padded to two and three digits and with a width chosen per variable; all spellings must give the all-file result. Loads whose inputs contain a trigger of one of the two list defects are " +
 		"classified separately (class with-list-defect-trigger); all other loads are compared strictly. A load is non-trivial when it has environment " +
 		"variables and either a file part or at least three variables.")
 	r.Assume("free-form map keys (header names, values) are generated lower case: the environment naming rules cannot express upper case keys",
 		"string values are written as YAML scalars of the same text in file and environment (quoted where YAML would otherwise read another type)",
 		"'$' does not occur in values (the file is subject to ${var} substitution by design)",
-		"cache back ends and rule providers are not started: their sections are compared as configuration values only",
+		"cache back ends and rule providers are not started: their sections are compared as configuration values only; of the cache only the type is checked "+
+			"against the factory registry the application uses at start-up",
 		"form (b') relies on the loader typing environment values with a YAML parser (a JSON object as value becomes a sub-tree); it is not a documented "+
 			"naming rule and is used as an additional way through the real loader that involves neither the file schema nor list reconstruction")
 
@@ -792,6 +797,8 @@ func TestC20(t *testing.T) {
 	r.Require("strict_env_variables_addressing_list_elements", r.Counter("strict_env_variables_addressing_list_elements"), 50)
 	r.Require("conflicting_leaves", r.Counter("conflicting_leaves"), 200)
 	r.Require("table_entries_decided", r.Counter("table_entries_decided"), 200)
+	r.Require("table_entries_enumerated_values", r.Counter("table_entries_enumerated_values"), 100)
+	r.Require("index_spelling_loads_plain_decimal", r.Counter("index_spelling_loads_plain_decimal"), 30)
 	if bad, tot := r.Counter("generated_configurations_not_usable_from_file"), r.Counter("configurations"); bad*10 > tot+bad {
 		r.Inconclusive(fmt.Sprintf("%d of %d generated configurations are not usable from a file (generator or validator out of step)", bad, bad+tot))
 	}
